@@ -59,7 +59,7 @@ def fd_replay(p, order, wrt, args, direction):
 
 def work(item):
     i, p, order = item
-    key = progs.show(p) + (f' [d/d{float_args(p)[0]}]' if order == 2 else '')
+    key = progs.show(p) + (f' [d/d{(float_args(p) or ["?"])[0]}]' if order == 2 else '')
     res = dict(key=key, viol=[], unconfirmed=[], q=dict(exact_unsat=0, margin_unsat=0, sat=0, unknown=0, trivial=0), paths=0, status='ok', nontrivial=False)
     try:
         e = build(p, order)
@@ -70,6 +70,7 @@ def work(item):
     names = progs.used_args(p)
     fa = float_args(p)
     if not fa: res['status'] = 'no-float-argument'; return res
+    if e.dtype == complex: res['status'] = 'complex-declined'; return res
     for wrt in fa:
         x = progs.arg(wrt)
         try:
@@ -158,13 +159,13 @@ def items(tier, seed):
     rng = random.Random(seed)
     P = list(EXTRA) + list(progs.CORPUS)
     d1 = [p for p, e in progs.typed(progs.depth1()) if float_args(p)]; rng.shuffle(d1)
-    P += d1[:1200 if tier == 'quick' else len(d1)]
+    P += d1[:700 if tier == 'quick' else len(d1)]
     d2 = [p for p in progs.depth2(d1[:300] if tier == 'quick' else d1[:4000])]; rng.shuffle(d2)
-    P += d2[:900 if tier == 'quick' else 30000]
-    for _ in range(100 if tier == 'quick' else 2000):
+    P += d2[:450 if tier == 'quick' else 30000]
+    for _ in range(60 if tier == 'quick' else 2000):
         P.append(progs.random_program(rng, rng.choice([3, 4]), leaves=progs.FLEAVES + progs.XLEAVES + [('arg', 'k'), ('arg', 'n')]))
     out = [(i, p, 1) for i, p in enumerate(P)]
-    n2 = len(EXTRA) + (250 if tier == 'quick' else 5000)
+    n2 = len(EXTRA) + (120 if tier == 'quick' else 5000)
     out += [(i, p, 2) for i, p in enumerate(P[:n2])]
     return out
 
